@@ -99,7 +99,7 @@ fn guarded_region() -> Option<(usize, usize)> {
 
 /// the same bytes placed at every residue mod 8 of the address space, and flush against an inaccessible page on either side:
 /// decoding must depend on the bytes only and must not touch anything outside them
-fn at_every_placement(buf: &[u8], f: impl Fn(&[u8]) -> String) -> String {
+fn at_every_placement(buf: &[u8], f: impl Fn(&[u8]) -> String + Sync) -> String {
     let mut backing = vec![0u8; buf.len() + 16];
     let pad = (8 - (backing.as_ptr() as usize) % 8) % 8;
     let mut first: Option<String> = None;
@@ -110,6 +110,28 @@ fn at_every_placement(buf: &[u8], f: impl Fn(&[u8]) -> String) -> String {
         match &first {
             None => first = Some(r),
             Some(r0) if *r0 != r => return format!("PLACEMENT-DEPENDENT at address residue {}: {} // residue 0: {}", off, r, r0),
+            _ => {}
+        }
+    }
+    // ... and on a thread with a SMALL stack (64 KiB), at an odd address: decoding needs no more stack than a few frames, wherever
+    // the bytes lie (round 6: misaligned payloads were copied into a 64 KiB scratch array on the stack - an abort on small stacks)
+    {
+        let lo = pad + 1;
+        backing[lo..lo + buf.len()].copy_from_slice(buf);
+        let view = &backing[lo..lo + buf.len()];
+        let fr = &f;
+        let r = std::thread::scope(|s| {
+            std::thread::Builder::new()
+                .stack_size(64 << 10)
+                .spawn_scoped(s, move || fr(view))
+                .ok()
+                .and_then(|h| h.join().ok())
+        });
+        match r {
+            Some(r) if Some(&r) != first.as_ref() => {
+                return format!("PLACEMENT-DEPENDENT on a 64 KiB stack: {} // on the main thread: {}", r, first.unwrap_or_default())
+            }
+            None => return "PLACEMENT-DEPENDENT on a 64 KiB stack: the decoding thread died".to_string(),
             _ => {}
         }
     }
